@@ -12,6 +12,7 @@ import (
 	"fmt"
 	"go/ast"
 	"go/token"
+	"math/big"
 	"strings"
 
 	"ssvharness/internal/gen"
@@ -144,8 +145,33 @@ func roundRobin(p *gen.Pkg, l *gen.Lean) error {
 	l.Comment("roundRobinClientSelector.Select returns %s", canon)
 	l.NatDef("rrMask", mask, "clientgroups: const uintptrToNonNegativeInt = "+p.Src(vs.Values[0]))
 	l.NatDef("rrInit", initVal, "clientgroups: roundRobinClientSelector.init stores this in the counter")
-	l.NatDef("rrWordBits", "64", "uintptr width on linux/amd64 (the counter wraps modulo 2^rrWordBits)")
+	// the width of uintptr as the type checker sees it: ^uintptr(0) = 2^w - 1
+	allOnes, ok := new(big.Int).SetString(initValAllOnes(p), 10)
+	if !ok {
+		return fmt.Errorf("round-robin: cannot evaluate ^uintptr(0)")
+	}
+	w := new(big.Int).Add(allOnes, big.NewInt(1))
+	if w.BitLen() < 2 || new(big.Int).Lsh(big.NewInt(1), uint(w.BitLen()-1)).Cmp(w) != 0 {
+		return fmt.Errorf("round-robin: ^uintptr(0)+1 = %s is not a power of two", w)
+	}
+	l.NatDef("rrWordBits", fmt.Sprint(w.BitLen()-1), "uintptr width for the target (the counter wraps modulo 2^rrWordBits)")
 	return nil
+}
+
+// initValAllOnes evaluates ^uintptr(0) with the package's type information (it is the operand of the mask constant).
+func initValAllOnes(p *gen.Pkg) string {
+	res := ""
+	for _, f := range p.Files {
+		ast.Inspect(f, func(n ast.Node) bool {
+			if u, ok := n.(*ast.UnaryExpr); ok && u.Op == token.XOR && p.Src(u) == "^uintptr(0)" {
+				if v, ok := p.EvalInt(u); ok {
+					res = v
+				}
+			}
+			return true
+		})
+	}
+	return res
 }
 
 func randomSel(p *gen.Pkg, l *gen.Lean) error {
